@@ -216,9 +216,11 @@ theorem mkCell_ndim (s : Region) (cell : List Rat) (sm : Mesh) (h : Mesh.mkCell?
         · cases h
         · split at h
           · cases h
-          · injection h with h
-            subst h
-            exact ⟨rfl, by simpa using h1⟩
+          · split at h
+            · cases h
+            · injection h with h
+              subst h
+              exact ⟨rfl, by simpa using h1⟩
 
 theorem subAccept_of_subOk (r : Region) (n : List Nat) (s : Region)
     (h : T.subOk { region := r, n := n, bc := "", subs := [] } s = true) : subAccept r n s = true := by
